@@ -131,7 +131,7 @@ def diagnose(w, conc, created, fr_ctx, m, ex, world_addrs, base_mism, cheat=None
     from evm.cheats_ref import CheatStop
 
     for q in QUIRKS:
-        if hasattr(cheat, "for_pair"):
+        if hasattr(cheat, "for_pair") or w.symbolic_storage:
             return None
         try:
             evm, world, fr = E_run_reference(w, conc, created, quirks=frozenset([q]), cheat=cheat, cheat_addrs=cheat_addrs)
@@ -145,10 +145,12 @@ def diagnose(w, conc, created, fr_ctx, m, ex, world_addrs, base_mism, cheat=None
     return None
 
 
-def E_run_reference(w, conc, created, quirks=frozenset(), cheat=None, cheat_addrs=(), sender_hook=None):
+def E_run_reference(w, conc, created, quirks=frozenset(), cheat=None, cheat_addrs=(), sender_hook=None, initial=None):
     from evm.refevm import DEFAULT_BLOCK, RefEVM, World
 
     world = World()
+    if initial:
+        world.initial = dict(initial)
     for a, c in w.accounts.items():
         world.code[a] = c
         world.storage[a] = {}
@@ -171,7 +173,7 @@ def E_run_reference(w, conc, created, quirks=frozenset(), cheat=None, cheat_addr
 
 def engine_run(ch, *, bias=None, unknown_rates=(0.0, 0.0, 0.03, 0.3, 1.0), n_sigmas=6, max_paths=48,
                keep_log=False, check_pruned=True, options_bias=None, small_keys=False, world_fn=None, cheat=None,
-               cheat_addrs=(), path_hook=None):
+               cheat_addrs=(), path_hook=None, symbolic_storage_rate=0.0):
     """one simulated run; returns (violations, stats dict)"""
     # ---------------- swarm (drawn first so that it shrinks last)
     unknown_rate = ch.choose(list(unknown_rates), "sw.unknown")
@@ -190,6 +192,8 @@ def engine_run(ch, *, bias=None, unknown_rates=(0.0, 0.0, 0.03, 0.3, 1.0), n_sig
         feat = draw_feat(ch, bias)
         feat.generic_layout = options["storage_layout"] == "generic"
         w = draw_world(ch, feat, options)
+        if symbolic_storage_rate and ch.chance(symbolic_storage_rate, "sw.symstorage"):
+            w.symbolic_storage = (gen.TARGET,)
 
     seams = E.EngineSeams(ch, unknown_rate=unknown_rate, uid_mode=uid_mode, gc_rate=gc_rate,
                           record_pruned=check_pruned).install()
@@ -246,6 +250,17 @@ def engine_run(ch, *, bias=None, unknown_rates=(0.0, 0.0, 0.03, 0.3, 1.0), n_sig
             conc = inp.concrete(sigma)
             created = E.created_addresses(m, r.context)
             pair_model = cheat.for_pair(m, r) if hasattr(cheat, "for_pair") else None
+            initial = None
+            if w.symbolic_storage:
+                initial, const_reads = E.initial_reads(m, r.context, set(w.symbolic_storage))
+                probe("initial_reads", len(initial))
+                if const_reads:
+                    a_, sl_, v_ = const_reads[0]
+                    violations.append(dict(
+                        oracle="ENGINE:initial-not-unconstrained", disc="constant-initial-value",
+                        detail=f"path {r.index}: with symbolic storage enabled, the first read of the never-written slot {a_:#x}[{sl_:#x}] returns the "
+                               f"constant {v_:#x} instead of an unconstrained initial value", kind="initial", kinds=["load-mismatch"]))
+                    return
             try:
                 if pair_model is not None:
                     evm, world, fr = E_run_reference(w, conc, created, cheat=pair_model.handler, cheat_addrs=cheat_addrs,
@@ -255,7 +270,7 @@ def engine_run(ch, *, bias=None, unknown_rates=(0.0, 0.0, 0.03, 0.3, 1.0), n_sig
                                                detail=f"path {r.index}, input {origin}: {pair_model.fresh_problems[:3]}", kind="fresh"))
                         return
                 else:
-                    evm, world, fr = E_run_reference(w, conc, created, cheat=cheat, cheat_addrs=cheat_addrs)
+                    evm, world, fr = E_run_reference(w, conc, created, cheat=cheat, cheat_addrs=cheat_addrs, initial=initial)
             except CheatStop as cs:
                 probe("ref_" + cs.kind)
                 if cs.kind == "assert-failed":
